@@ -59,6 +59,7 @@ type Exec struct {
 	assignsLocs   []assignLoc
 	resultNames   []string
 	euclid        map[string]*euclidEntry
+	pow2Global    map[string]Term // shift amount (no bound variable) -> its power-of-two constant, defined by a global axiom
 	euclidOrder   []*euclidEntry
 	footprint     []fpItem
 	pure          *pureCtx
